@@ -232,10 +232,15 @@ fn compare_bundle(e: Error, exp: &[Vec<u32>]) -> Result<(), String> {
     if e.len() != leaves {
         return Err(format!("len() = {} but {} leaf errors were recorded", e.len(), leaves));
     }
-    let flat: Vec<String> = e.clone().flatten().into_iter().map(|x| x.to_string()).collect();
-    let exp_flat: Vec<String> = exp.iter().flat_map(|ids| leaves_of(ids)).map(|x| x.to_string()).collect();
+    // flattened leaves: text and spannedness as recorded (a bundle built by the accumulator has
+    // no span of its own to hand down to span-less members)
+    let flat: Vec<String> = e.clone().flatten().into_iter().map(|x| show(&x)).collect();
+    let exp_flat: Vec<String> = exp.iter().flat_map(|ids| entry(ids).flatten().into_iter().collect::<Vec<_>>()).map(|x| show(&x)).collect();
     if flat != exp_flat {
         return Err(format!("flattened leaves {flat:?} != recorded {exp_flat:?}"));
+    }
+    if exp.len() > 1 && e.has_span() {
+        return Err("the bundle of the recorded errors carries a span of its own".into());
     }
     let kids: Vec<String> = e.into_iter().map(|x| show(&x)).collect();
     let exp_kids: Vec<String> = if exp.len() == 1 {
